@@ -165,21 +165,42 @@ fn c18_get_memory_region_untouched() {
 }
 
 // ---- EXPERIMENTS (to be removed)
-#[kani::proof]
-#[kani::unwind(40)]
-fn u1() {
-    untouched_case(U256([u64::MAX; 4]), U256::zero(), true);
-    untouched_case(U256::zero(), U256([1, 0, 0, 1]), false);
+fn untouched_case3(offset: U256, size: U256, empty: bool) {
+    let mut mem = Memory::default();
+    mem.grow(32);
+    let m0: u8 = kani::any();
+    let m31: u8 = kani::any();
+    mem[0] = m0;
+    mem[31] = m31;
+    let r = get_memory_region(&mut mem, offset, size);
+    if empty {
+        assert!(matches!(r, Ok(None)));
+    } else {
+        match &r {
+            Err(e) => assert!(e.exit_code().value() == 38),
+            _ => assert!(false),
+        }
+    }
+    assert!(mem.len() == 32);
+    let q: usize = kani::any();
+    if q < 32 {
+        assert!(mem[q] == if q == 0 { m0 } else if q == 31 { m31 } else { 0 });
+        kani::cover!(q == 31 && m31 == 0xAA && empty);
+        kani::cover!(q == 0 && m0 == 0xAA && !empty);
+    }
 }
 #[kani::proof]
 #[kani::unwind(40)]
-fn u2() {
-    untouched_case(U256([u64::MAX; 4]), U256::zero(), true);
-    untouched_case(U256([0, 1, 0, 0]), U256::from(1u64), false); // offset 2^64 (low limb 0)
+fn u9() {
+    untouched_case3(U256::zero(), U256([1, 0, 0, 1]), false);
+    untouched_case3(U256([u64::MAX; 4]), U256::zero(), true); // empty region at offset 2^256-1
 }
 #[kani::proof]
 #[kani::unwind(40)]
-fn u3() {
-    untouched_case(U256([u64::MAX; 4]), U256::zero(), true);
-    untouched_case(U256([0xFFFF_FFFF, 0, 0, 0]), U256::from(1u64), false); // offset + size = 2^32
+fn u10() {
+    untouched_case3(U256([u64::MAX; 4]), U256::zero(), true); // empty region at offset 2^256-1
+    untouched_case3(U256::zero(), U256([0x1_0000_0000, 0, 0, 0]), false); // size 2^32
+    untouched_case3(U256::zero(), U256([1, 0, 0, 1]), false); // size 2^192+1 (low limbs small)
+    untouched_case3(U256([0, 1, 0, 0]), U256::from(1u64), false); // offset 2^64 (low limb 0)
+    untouched_case3(U256([0xFFFF_FFFF, 0, 0, 0]), U256::from(1u64), false); // offset + size = 2^32
 }
